@@ -99,6 +99,7 @@ type Req struct {
 	Method  string              `json:"m"`
 	Path    string              `json:"p"`
 	WFaults []WFault            `json:"wf,omitempty"`
+	Plain   bool                `json:"plain,omitempty"` // the connection's writer offers only Header/Write/WriteHeader (no Flusher, Hijacker, ReaderFrom)
 	Gone    bool                `json:"gone,omitempty"` // the client has gone: the request's context is already cancelled when it arrives
 	Over    map[string][]Action `json:"over,omitempty"` // per-request script overrides
 }
